@@ -61,7 +61,7 @@ impl Property for C20 {
         "families: planar triangulated disks built in 2D by the harness (jittered grids 3x3..16x16 quick / 40x40 thorough with random diagonals, strips of aspect up to 1:30, L-shaped non-convex outlines, fans) with shuffled vertex numbering and face order, all-CCW or all-CW winding, lifted by an arbitrary isometry; curved disks (height fields, domes, creases, cones) for the invariance clause; non-disks (closed solids, tubes with two boundary loops, two components, a fin making an edge shared by three faces, bow-tie of two disks, grid with an interior hole) for the rejection clause; meshes carrying a UV map that is an affine image of their planar layout with random (face, barycentric, height) samples. Oracle: edge lengths and triangle areas preserved, one orientation sign, result finite; flatten(T mesh) equals flatten(mesh) up to a planar rigid motion; Err for non-disks; UV round trip. Non-trivial: at least one interior vertex, shuffled numbering and a pose that is not axis-aligned. Distinct = distinct canonical JSON."
     }
     fn cases(t: Tier) -> u32 {
-        t.pick(10_000, 200_000)
+        t.pick(50_000, 200_000)
     }
     fn isolated() -> Option<Duration> {
         Some(Duration::from_secs(30))
@@ -178,13 +178,17 @@ fn planar(spec: &MeshSpec, t: &Iso3D) -> Verdict {
         }
     }
     ensure!(pos == 0 || neg == 0, "C20/flatten/folded", "{pos} triangles have positive and {neg} negative orientation in the flattening: the layout is folded");
+    // "keeps positive orientation": with the vertices of each face taken in face order the flattened triangle is
+    // counter-clockwise, i.e. the layout is the disk seen from the side its normals point to, not its mirror image
+    ensure!(neg == 0, "C20/flatten/mirrored", "all {neg} triangles have negative orientation in the flattening: the layout is the mirror image of the disk");
     cx.label(if spec.flip_all { "planar_cw" } else { "planar_ccw" });
     cx.label_if(matches!(spec.kind, MeshKind::LGrid { .. }), "nonconvex");
     // hence the shape is the original up to a rigid motion: compare with the planar coordinates of the lifted mesh
     let inv = spec.pose.to_iso().inverse();
     let flat: Vec<Point2> = bm.v.iter().map(|p| { let q = inv * p; Point2::new(q.x, q.y) }).collect();
     let flat_m: Vec<Point2> = flat.iter().map(|p| Point2::new(-p.x, p.y)).collect();
-    let r = rigid_residual(&flat, &uv).min(rigid_residual(&flat_m, &uv));
+    // seen from the side of the normals: the local x-y layout for counter-clockwise faces, its mirror image for clockwise
+    let r = if spec.flip_all { rigid_residual(&flat_m, &uv) } else { rigid_residual(&flat, &uv) };
     ensure!(r <= 1e-5 * size, "C20/flatten/not_congruent", "after the best planar rigid fit the flattening is {r:e} away from the original planar shape (size {size:e})");
     // invariance under a rigid motion of the input, and across repeated runs
     let iso = t.to_iso();
